@@ -208,6 +208,14 @@ def check_case(case):
             raise Violation(f"savitzky_and_golay(m={bw}) does not reproduce the cubic {case['poly']}: max error "
                             f"{np.max(np.abs(outp[0, sel] - p[idx][sel])):.3g} (scale {pscale:.3g})")
         labels.append("sg-poly")
+        # documented refusals: even bandwidth, non-uniform grid
+        from ..core import Refusal
+        for bad_bw, grid, why in ((int(bw) + 1, f, "an even bandwidth"), (int(bw), np.concatenate([f[:-1], [f[-1] * 1.5]]), "a non-uniform frequency grid")):
+            try:
+                sut(fn, grid, spec[:1], fcs, bad_bw, allow=(ValueError,), what=op)
+                raise Violation(f"savitzky_and_golay accepted {why} instead of raising ValueError")
+            except Refusal:
+                pass
 
     # (e) linearity
     if spec.shape[0] >= 2:
